@@ -534,6 +534,8 @@ def _into(it, args, dty, func):
             if tr and ty and _last(ty) == _last(d):
                 want = re.search(r"From<(.*)>", tr)
                 if want and src and _last(want.group(1)) == _last(src):
+                    if __import__("os").environ.get("MIRSYM_DEBUG"):
+                        print("From impl", name[:120], "src", src, "v", repr(v)[:100], "func", func[:200], "dty", dty[:80])
                     return it.run_body(it.prog.body(name), [v])
         # fall through: same type
     w = int_width(d)
@@ -594,6 +596,9 @@ def _to_string(it, args, dty, func):
 def _deref_model(it, args, dty, func):
     v = args[0]
     t = v.load() if isinstance(v, Ref) else v
+    # `<&mut T as AsRef<U>>::as_ref(&&mut T)`: peel plain references down to the container
+    while isinstance(t, Ref) and not isinstance(t, BoxV) and isinstance(t.load(), (Seq, Ref)):
+        v, t = t, t.load()
     if isinstance(t, Seq):
         return SliceRef(v, 0, len(t.f), t.kind in ("string", "str"))
     if isinstance(t, (Ref, SliceRef)):     # Box<T>, Arc<T>, &T
